@@ -167,6 +167,7 @@ def _is_atom(tok, val=None):
     )
 
 
+_STATUS_LINE = re.compile(rb"^([^ \r\n(){%*\"\\\x00-\x1f\x7f+]+|\*) (OK|NO|BAD|BYE|PREAUTH)(?: (.*))?\r\n$", re.I | re.S)
 _CODE = re.compile(rb"^\[([A-Za-z\-]+)(?: ([^\]]*))?\]")
 
 
@@ -174,6 +175,24 @@ def classify(resp: Resp):
     raw = resp.raw
     if not resp.crlf:
         return {"kind": "UNPARSED", "why": "no CRLF", "raw": raw[:200]}
+    # status responses carry free text (resp-text: any CHAR but CR and LF, so
+    # unbalanced quotes and parentheses are fine): read them without tokenizing
+    m = _STATUS_LINE.match(bytes(raw)) if len(resp.parts) == 1 else None
+    if m and b"\r" not in (m.group(3) or b"") and b"\n" not in (m.group(3) or b""):
+        tag, status, rest = m.group(1), m.group(2).upper(), m.group(3) or b""
+        if tag == b"*":
+            d = {"kind": "U" + status.decode(), "text": rest.decode("latin-1")}
+        elif status in (b"OK", b"NO", b"BAD"):
+            d = {"kind": "TAGGED", "tag": tag.decode("latin-1"), "status": status.decode(),
+                 "text": rest.decode("latin-1")}
+        else:
+            d = None
+        if d is not None:
+            mc = _CODE.match(rest)
+            if mc:
+                d["code"] = mc.group(1).decode().upper()
+                d["codearg"] = (mc.group(2) or b"").decode("latin-1")
+            return d
     try:
         toks = parse_line(resp)
     except ParseError as e:
